@@ -104,9 +104,14 @@ def _push_derived(m, r, cg, f: FuncInfo, name: str, depth=0) -> bool:
             return False
         idx = f.params.index(name)
         for caller, call in sites:
-            if not isinstance(call, ast.Call) or idx >= len(call.args) or not isinstance(call.args[idx], ast.Name):
+            if isinstance(call, ast.Call) and f.cls is not None and f.params and f.params[0] in ("self", "cls") and idx > 0 \
+                    and not (isinstance(call.func, ast.Attribute) and isinstance(m.resolve_expr_static(caller, call.func.value), type(f.cls))):
+                idx_ = idx - 1  # bound call: the receiver is not among the arguments
+            else:
+                idx_ = idx
+            if not isinstance(call, ast.Call) or idx_ >= len(call.args) or not isinstance(call.args[idx_], ast.Name):
                 return False
-            if not _push_derived(m, r, cg, caller, call.args[idx].id, depth + 1):
+            if not _push_derived(m, r, cg, caller, call.args[idx_].id, depth + 1):
                 return False
         return True
     defs = c05._assignments_to(f, name)
@@ -155,7 +160,19 @@ def check_freshness(ctx, r, cg):
             else:
                 ctx.ok("C13.1", caller.qualname, f"`{a.id}` aliases the live dicts of the context (push returns the appended tuple; rollback restores in place)")
             continue
-        ctx.bad("C13.1", caller, call, f"the bindings reported (`{norm(a)}`) are not provably those of the current context")
+        if isinstance(a, ast.Name):
+            defs = c05._assignments_to(caller, a.id)
+            if defs and all(idx is None and isinstance(v, ast.Call) and r.role_of_call(caller, v) == "get_shape_memo" for _, v, idx in defs):
+                ctx.ok("C13.1", caller.qualname, f"`{a.id}` holds the live dicts handed out by get_shape_memo() (restored in place, never replaced)"
+                       if shape == "inplace" else f"`{a.id}` = get_shape_memo()")
+                if shape == "replace":
+                    # a rollback between the read and the report would make the tuple stale
+                    raise AnalysisError(f"{caller.qualname}: `{a.id}` is read from get_shape_memo() ahead of the report and set_shape_memo replaces the top of the stack")
+                continue
+            if defs and any(v is not None and (c05._is_copy_of(v, set(caller.local_names()) | set(caller.params)) or "_bak" in a.id) for _, v, _i in defs):
+                ctx.bad("C13.1", caller, call, f"the bindings reported (`{norm(a)}`) are a snapshot copy, not the bindings in force when the failure was detected")
+                continue
+        raise AnalysisError(f"{caller.qualname}: cannot trace where the bindings reported (`{norm(a)}`) come from")
     ctx.counters["shape_str_call_sites"] = n
     ctx.floor("C13.1", "shape_str_call_sites", 3)
     # "none taken from the check that failed": the rollback must reinstate the snapshot
